@@ -402,7 +402,7 @@ func c12BufferReuse(c *Ctx, r *Rng) {
 		m.Extra = []dns.RR{o}
 		return m
 	}
-	rounds := c.Scale(40, 400)
+	rounds := c.Scale(40, 3000)
 	cl := &dns.Client{Net: "udp", Timeout: 2 * time.Second}
 	for i := 0; i < rounds; i++ {
 		done := make(chan struct{})
@@ -477,8 +477,8 @@ func c12Concurrent(c *Ctx, r *Rng, network string) {
 	}
 	go srv.ActivateAndServe()
 	<-started
-	clients := c.Scale(8, 32)
-	per := c.Scale(40, 300)
+	clients := c.Scale(8, 48)
+	per := c.Scale(40, 1500)
 	var wg sync.WaitGroup
 	var mism, fails int64
 	for ci := 0; ci < clients; ci++ {
